@@ -1,85 +1,85 @@
-"""gen/extract_syn.py — tables of the lexer / parser / serializer (pdf/src/parser/**, primitive.rs)."""
+"""gen/extract_syn.py — tables of the lexer / parser / serializer (pdf/src/parser/**, primitive.rs).
+
+Byte classes are read with X.byte_set (any spelling of the predicate, one level of helper fn), tables of disjoint literal
+arms with X.match_arms / X.ordered_by_key (arm order in the source is immaterial), locals are bound, never named."""
 import re
 
 
 def extract(g, X):
-    LIT = X.LIT
+    B = X.BYTE
+    iv = X.int_value
     lx = X.strip_comments(X.read("pdf/src/parser/lexer/mod.rs"))
     st = X.strip_comments(X.read("pdf/src/parser/lexer/str.rs"))
     pm = X.strip_comments(X.read("pdf/src/parser/mod.rs"))
     pr = X.strip_comments(X.read("pdf/src/primitive.rs"))
 
     def ws():
-        b = X.fn_body(lx, "is_whitespace")
-        m = re.search(r"matches!\(\s*b\s*,\s*([^)]*)\)", b)
-        return X.cl(X.alt_set(m.group(1)))
+        return X.cl(X.ordered(X.pred_fn_set(lx, "is_whitespace"), [0, 32, 13, 10, 9, 12]))
     g.attempt([("lex_ws", "list N")], "lexer/mod.rs:is_whitespace", ws)
 
     def delims():
-        # fn is_delimiter(&self, pos) — the method on Lexer
-        m = re.search(r"fn\s+is_delimiter\s*\(&self[^)]*\)\s*->\s*bool\s*\{(.*?)\n    \}", lx, flags=re.S)
-        mm = re.search(r'b"((?:\\.|[^"\\])*)"\s*\.contains', m.group(1))
-        s = mm.group(1).encode().decode("unicode_escape").encode("latin-1")
-        return X.cl(list(s))
+        # fn is_delimiter(&self, pos) — the method on Lexer: the predicate applied to the byte at pos, if there is one
+        b = X.item_body(lx, r"fn\s+is_delimiter\s*\(\s*&self[^)]*\)\s*->\s*bool\s*\{", "Lexer::is_delimiter")
+        return X.cl(X.ordered(X.option_pred_set(b, lx), [40, 41, 60, 62, 91, 93, 123, 125, 47, 37]))
     g.attempt([("lex_delims", "list N")], "lexer/mod.rs:Lexer::is_delimiter", delims)
 
     def comment():
         b = X.fn_body(lx, "next_word")
-        m = re.search(r"while\s+self\.buf\.get\(pos\)\s*==\s*Some\(&(" + LIT + r")\)", b)
-        e = re.search(r"position\(\|&b\|\s*((?:b\s*==\s*" + LIT + r"\s*(?:\|\|\s*)?)+)\)", b)
-        ends = [X.lit(t) for t in re.findall(r"b\s*==\s*(" + LIT + r")", e.group(1))]
-        return str(X.lit(m.group(1))), X.cl(ends)
+        m = re.search(r"while\s+self\.buf\.get\(\s*\w+\s*\)\s*==\s*Some\(\s*&?\s*(" + B + r")\s*\)", b)
+        (params, expr), = X.closures(b, "position")
+        ends = X.ordered(X.byte_set(expr, X.closure_var(params), lx), [10, 13])
+        return str(iv(m.group(1))), X.cl(ends)
     g.attempt([("lex_comment", "N"), ("lex_comment_ends", "list N")], "lexer/mod.rs:next_word(comment)", comment)
 
     def escapes():
         b = X.fn_body(st, "next_lexeme")
         out = []
-        for m in re.finditer(r"(" + LIT + r")\s*=>\s*Some\(\s*(" + LIT + r")\s*\)", b):
-            out.append((X.lit(m.group(1)), X.lit(m.group(2))))
+        for m in re.finditer(r"(" + B + r")\s*=>\s*Some\(\s*(" + B + r")\s*\)", b):
+            out.append((iv(m.group(1)), iv(m.group(2))))
         if len(out) < 5:
             raise ValueError("escape arms not found")
-        return X.ctuples(out)
+        return X.ctuples(X.ordered_by_key(out, [110, 114, 116, 98, 102, 40, 41, 92]))
     g.attempt([("str_escapes", "list (N * N)")], "lexer/str.rs:StringLexer::next_lexeme(escapes)", escapes)
 
     def octal():
         b = X.fn_body(st, "next_lexeme")
-        m = re.search(r"for\s+_\s+in\s+0\s*\.\.\s*(\d+)", b)
-        r = re.search(r"\((" + LIT + r")\s*\.\.=\s*(" + LIT + r")\)\.contains\(&c\)", b)
-        k = re.search(r"char_code\s*\*\s*(\d+)", b)
-        return m.group(1), str(X.lit(r.group(1))), str(X.lit(r.group(2))), k.group(1)
+        m = re.search(r"for\s+\w+\s+in\s+0\s*\.\.\s*(" + B + r")\s*\{", b)
+        loop = X.item_body(b[m.start():], r"\{", "octal loop")
+        # the digit test, in either polarity: `if (LO..=HI).contains(&d) { eat } else { break }` / `if !(…) { break }`
+        c = re.search(r"\bif\s+([^{;]+?)\s*\{", loop)       # the first test in the loop is the digit test
+        cond = c.group(1)
+        digits = X.byte_set(cond, None, st)
+        blk = X.item_body(loop[c.start():], r"\{", "digit test block")
+        if re.match(r"\s*break\b", blk):
+            digits = X.ALL_BYTES - digits
+        lo, hi = min(digits), max(digits)
+        if digits != set(range(lo, hi + 1)):
+            raise ValueError("octal digits are not a range")
+        k = re.search(r"(\w+)\s*=\s*\1\s*\*\s*(" + B + r")\s*\+", loop)
+        return str(iv(m.group(1))), str(lo), str(hi), str(iv(k.group(2)))
     g.attempt([("str_octal_max_digits", "N"), ("str_octal_lo", "N"), ("str_octal_hi", "N"), ("str_octal_base", "N")],
               "lexer/str.rs:StringLexer::next_lexeme(octal)", octal)
 
     def hexws():
         b = X.fn_body(st, "next_non_whitespace_char")
-        vals = [X.lit(t) for t in re.findall(r"byte\s*==\s*(" + LIT + r")", b)]
+        m = re.search(r"\bwhile\s+(.*?)\{", b, flags=re.S)
+        vals = X.byte_set(m.group(1), None, st, body=b)
         if not vals:
             raise ValueError("no white-space tests")
-        return X.cl(sorted(set(vals)))
+        return X.cl(sorted(vals))
     g.attempt([("hexstr_ws", "list N")], "lexer/str.rs:HexStringLexer::next_non_whitespace_char", hexws)
 
     def hexdig():
-        b = X.fn_body(st, "next_hex_byte")
-        hi = b[:b.index("let c2")]
-        lo = b[b.index("let c2"):]
-        def arms(s, v):
-            out = []
-            for m in re.finditer(r"(" + LIT + r")\s*\.\.=\s*(" + LIT + r")\s*=>\s*" + v + r"\s*-\s*(" + LIT + r")\s*(?:\+\s*(" + LIT + r"))?", s):
-                lo_, hi_, sub, add = X.lit(m.group(1)), X.lit(m.group(2)), X.lit(m.group(3)), X.lit(m.group(4)) if m.group(4) else 0
-                if sub != lo_:
-                    raise ValueError("arm subtracts a different base")
-                out.append((lo_, hi_, add))
-            return out
-        a, c = arms(hi, "c1"), arms(lo, "c2")
-        if not a or a != c:
+        tabs = X.hex_nibble_tables(X.fn_body(st, "next_hex_byte"))
+        rows = [X.ordered_by_key(r, [48, 65, 97]) for r, _, _ in tabs]
+        if len(rows) != 2 or rows[0] != rows[1]:
             raise ValueError("high/low nibble arms differ or missing")
-        end = re.search(r"(" + LIT + r")\s*=>\s*return\s+Ok\(None\)", hi)
-        return X.ctuples(a), str(X.lit(end.group(1)))
+        (end,) = [v for _, singles, _ in tabs for v, e in singles if re.fullmatch(r"return\s+Ok\(\s*None\s*\)\s*;?", e)]
+        return X.ctuples(rows[0]), str(end)
     g.attempt([("hexstr_digits", "list (N * N * N)"), ("hexstr_end", "N")], "lexer/str.rs:HexStringLexer::next_hex_byte", hexdig)
 
     def maxdepth():
-        m = re.search(r"const\s+MAX_DEPTH\s*:\s*usize\s*=\s*(\d+)\s*;", pm)
-        return m.group(1)
+        return str(iv(X.const_expr(pm, "MAX_DEPTH")))
     g.attempt([("MAX_DEPTH", "N")], "parser/mod.rs:MAX_DEPTH", maxdepth)
 
     def flags():
@@ -95,32 +95,52 @@ def extract(g, X):
 
     def stream_kw():
         b = X.fn_body(lx, "next_stream")
-        if not re.search(r"let\s*\(_,\s*pos\)\s*=\s*self\.next_word\(\)\?", b):
+        w = re.search(r"let\s*\(\s*_\s*,\s*(\w+)\s*\)\s*=\s*self\.next_word\(\)\?", b)
+        if not w:
             raise ValueError("keyword is no longer located with next_word")
-        lf = re.search(r"if\s+b0\s*==\s*(" + LIT + r")\s*\{\s*self\.pos\s*=\s*pos\s*\+\s*(\d+)", b)
-        cr = re.search(r"else\s+if\s+b0\s*==\s*(" + LIT + r")", b)
-        crlf = re.search(r"if\s+b1\s*!=\s*(" + LIT + r")", b)
-        p8 = re.findall(r"self\.pos\s*=\s*pos\s*\+\s*(\d+)", b)
-        return str(X.lit(lf.group(1))), lf.group(2), str(X.lit(cr.group(1))), str(X.lit(crlf.group(1))), p8[-1]
+        p = w.group(1)
+        f = re.search(r"let\s+&(\w+)\s*=\s*self\.buf\.get\(\s*" + p + r"\s*\)", b)
+        s2 = re.search(r"let\s+&(\w+)\s*=\s*self\.buf\.get\(\s*" + p + r"\s*\+\s*1\s*\)", b)
+        b0, b1 = f.group(1), s2.group(1)
+        lf = re.search(r"if\s+" + b0 + r"\s*==\s*(" + B + r")\s*\{\s*self\.pos\s*=\s*" + p + r"\s*\+\s*(\d+)", b)
+        cr = re.search(r"else\s+if\s+" + b0 + r"\s*==\s*(" + B + r")", b)
+        crlf = re.search(r"if\s+" + b1 + r"\s*!=\s*(" + B + r")", b)
+        p8 = re.findall(r"self\.pos\s*=\s*" + p + r"\s*\+\s*(\d+)", b)
+        return str(iv(lf.group(1))), lf.group(2), str(iv(cr.group(1))), str(iv(crlf.group(1))), p8[-1]
     g.attempt([("stream_lf", "N"), ("stream_after_lf", "N"), ("stream_cr", "N"), ("stream_cr_lf", "N"), ("stream_after_crlf", "N")],
               "lexer/mod.rs:next_stream", stream_kw)
 
     # ---- serializer (primitive.rs)
     def name_ser():
         b = X.fn_body(pr, "serialize_name")
-        m = re.search(r"(" + LIT + r")\s*\.\.=\s*(" + LIT + r")\s+if\s+!b\"((?:\\.|[^\"\\])*)\"\.contains\(&b\)\s*=>\s*out\.write_all", b)
-        excl = m.group(3).encode().decode("unicode_escape").encode("latin-1")
-        esc = re.search(r'_\s*=>\s*write!\(out,\s*"#\{:02X\}"', b)
-        if not esc:
-            raise ValueError("escape arm changed")
-        return str(X.lit(m.group(1))), str(X.lit(m.group(2))), X.cl(list(excl))
+        m = re.search(r"\bmatch\s+(\*?\w+)\s*\{", b)
+        v = m.group(1).lstrip("*")
+        raw, esc = None, False
+        for arm in X.match_arms(b, re.escape(m.group(1))):
+            if re.search(r"\.write_all\(\s*&\[\s*" + v + r"\s*\]\s*\)", arm.expr):
+                if raw is not None:
+                    raise ValueError("two raw arms")
+                raw = set(X.pattern_set(arm.pattern, b, pr))
+                if arm.guard:
+                    raw &= X.byte_set(arm.guard, v, pr, body=b)
+            elif arm.pattern == "_" and re.match(r'write!\(\s*\w+\s*,\s*"#\{:02X\}"\s*,\s*' + v + r"\s*\)", arm.expr):
+                esc = True
+        if not esc or not raw:
+            raise ValueError("raw / escape arm changed")
+        lo, hi = min(raw), max(raw)
+        excl = X.ordered(set(range(lo, hi + 1)) - raw, [40, 41, 60, 62, 91, 93, 123, 125, 47, 37, 35])
+        return str(lo), str(hi), X.cl(excl)
     g.attempt([("name_ser_raw_lo", "N"), ("name_ser_raw_hi", "N"), ("name_ser_raw_except", "list N")], "primitive.rs:serialize_name", name_ser)
 
     def str_ser():
-        m = re.search(r"impl\s+PdfString\s*\{\s*pub\s+fn\s+serialize", pr)
+        m = re.search(r"impl\s+PdfString\s*\{", pr)
         b = X.item_body(pr[m.start():], r"pub\s+fn\s+serialize\s*\(&self[^)]*\)\s*->\s*Result<\(\)>\s*\{", "PdfString::serialize")
-        thr = re.search(r"any\(\|&b\|\s*b\s*>=\s*(" + LIT + r")\)", b)
-        esc = re.search(r"((?:b'(?:\\.|[^'\\])'\s*\|\s*)*b'(?:\\.|[^'\\])')\s*=>\s*write!\(out,\s*r\"\\\"\)", b)
-        cr = re.search(r"(" + LIT + r")\s*=>\s*\{[^{}]*write!\(out,\s*r\"\\r\"\)", b)
-        return str(X.lit(thr.group(1))), X.cl(X.alt_set(esc.group(1))), str(X.lit(cr.group(1)))
+        (params, expr), = X.closures(b, "any")
+        hexed = X.byte_set(expr, X.closure_var(params), pr)
+        thr = min(hexed)
+        if hexed != set(range(thr, 256)):
+            raise ValueError("hex condition is not a threshold")
+        esc = re.search(r"((?:" + B + r"\s*\|\s*)*" + B + r")\s*=>\s*write!\(\s*\w+\s*,\s*r\"\\\"\s*\)", b)
+        cr = re.search(r"(" + B + r")\s*=>\s*\{[^{}]*write!\(\s*\w+\s*,\s*r\"\\r\"\s*\)", b)
+        return str(thr), X.cl(X.ordered(X.pattern_set(esc.group(1)), [92, 40, 41])), str(iv(cr.group(1)))
     g.attempt([("str_ser_hex_from", "N"), ("str_ser_escaped", "list N"), ("str_ser_cr", "N")], "primitive.rs:PdfString::serialize", str_ser)
